@@ -72,16 +72,50 @@ theorem flowModModify_sorted (s : State) (fm : FlowModMsg) (strict : Bool) (hs :
 theorem flowModDelete_sorted (s : State) (fm : FlowModMsg) (strict : Bool) (hs : Sorted s.table) :
     Sorted (flowModDelete s fm strict).1.table := sorted_filter _ hs
 
+/-! ### the buffer tail of `_rx_flow_mod` touches only the pool -/
+
+theorem bufferUse_frame (s : State) (id : Nat) (a : List Action) :
+    (bufferUse s id a).1.table = s.table ∧ (bufferUse s id a).1.now = s.now ∧ (bufferUse s id a).1.maxEntries = s.maxEntries ∧
+    (bufferUse s id a).1.cfg = s.cfg := by
+  unfold bufferUse
+  split
+  · exact ⟨rfl, rfl, rfl, rfl⟩
+  · split <;> exact ⟨rfl, rfl, rfl, rfl⟩
+
+theorem bufferTail_frame (s : State) (fm : FlowModMsg) :
+    (bufferTail s fm).1.table = s.table ∧ (bufferTail s fm).1.now = s.now ∧ (bufferTail s fm).1.maxEntries = s.maxEntries ∧
+    (bufferTail s fm).1.cfg = s.cfg := by
+  unfold bufferTail
+  split
+  · exact ⟨rfl, rfl, rfl, rfl⟩
+  · exact ⟨rfl, rfl, rfl, rfl⟩
+  · exact bufferUse_frame s _ _
+
+theorem flowModStep_table (s : State) (fm : FlowModMsg) : (flowModStep s fm).1.table = (flowModHandler s fm).1.table :=
+  (bufferTail_frame _ fm).1
+theorem flowModStep_now (s : State) (fm : FlowModMsg) : (flowModStep s fm).1.now = (flowModHandler s fm).1.now :=
+  (bufferTail_frame _ fm).2.1
+theorem flowModStep_maxEntries (s : State) (fm : FlowModMsg) :
+    (flowModStep s fm).1.maxEntries = (flowModHandler s fm).1.maxEntries := (bufferTail_frame _ fm).2.2.1
+theorem flowModStep_cfg (s : State) (fm : FlowModMsg) : (flowModStep s fm).1.cfg = (flowModHandler s fm).1.cfg :=
+  (bufferTail_frame _ fm).2.2.2
+
+theorem flowModHandler_sorted (s : State) (fm : FlowModMsg) (hs : Sorted s.table) : Sorted (flowModHandler s fm).1.table := by
+  unfold flowModHandler
+  split
+  · exact flowModAdd_sorted s fm hs
+  · exact flowModModify_sorted s fm false hs
+  · exact flowModModify_sorted s fm true hs
+  · exact flowModDelete_sorted s fm false hs
+  · exact flowModDelete_sorted s fm true hs
+  · exact hs
+
 theorem step_sorted (s : State) (op : Op) (hs : Sorted s.table) : Sorted (step s op).1.table := by
   cases op with
   | flowMod fm =>
-    simp only [step, flowModStep]
-    split
-    · exact flowModAdd_sorted s fm hs
-    · exact flowModModify_sorted s fm false hs
-    · exact flowModModify_sorted s fm true hs
-    · exact flowModDelete_sorted s fm false hs
-    · exact flowModDelete_sorted s fm true hs
+    show Sorted (flowModStep s fm).1.table
+    rw [flowModStep_table]
+    exact flowModHandler_sorted s fm hs
   | packet p inPort len =>
     simp only [step, packetStep]
     split
@@ -199,7 +233,7 @@ theorem mem_modifyFirst {α : Type} (p : α → Bool) (f : α → α) (l : List 
         · exact .inr ⟨z, by simp [hz], hp, rfl⟩
 
 theorem flowModAdd_mem (s : State) (fm : FlowModMsg) (e : FEntry) (he : e ∈ (flowModAdd s fm).1.table) :
-    e ∈ s.table ∨ (e = mkEntry s.now fm ∧ fm.flags.testBit FF_EMERG = false) := by
+    e ∈ s.table ∨ (e = mkEntry s.cfg s.now fm ∧ fm.flags.testBit FF_EMERG = false) := by
   unfold flowModAdd flowModFailed at he
   split at he
   · exact .inl he
@@ -222,11 +256,11 @@ theorem kept_of_mem (s : State) (e : FEntry) (he : e ∈ s.table) : Kept s e :=
   ⟨e, he, rfl, rfl, rfl, rfl, rfl, rfl, rfl, rfl, rfl, rfl, rfl⟩
 
 theorem flowModAdd_clocks (s : State) (fm : FlowModMsg) (e' : FEntry) (h : e' ∈ (flowModAdd s fm).1.table) :
-    Kept s e' ∨ (e' = mkEntry s.now fm ∧ fm.flags.testBit FF_EMERG = false) :=
+    Kept s e' ∨ (e' = mkEntry s.cfg s.now fm ∧ fm.flags.testBit FF_EMERG = false) :=
   (flowModAdd_mem s fm e' h).elim (fun h => .inl (kept_of_mem s _ h)) .inr
 
 theorem flowModModify_clocks (s : State) (fm : FlowModMsg) (strict : Bool) (e' : FEntry)
-    (h : e' ∈ (flowModModify s fm strict).1.table) : Kept s e' ∨ (e' = mkEntry s.now fm ∧ fm.flags.testBit FF_EMERG = false) := by
+    (h : e' ∈ (flowModModify s fm strict).1.table) : Kept s e' ∨ (e' = mkEntry s.cfg s.now fm ∧ fm.flags.testBit FF_EMERG = false) := by
   unfold flowModModify at h
   simp only at h
   split at h
@@ -243,21 +277,23 @@ theorem flowModModify_clocks (s : State) (fm : FlowModMsg) (strict : Bool) (e' :
 theorem step_clocks (s : State) (op : Op) (e' : FEntry) (he' : e' ∈ (step s op).1.table) :
     Kept s e' ∨
     (∃ p inPort len, op = .packet p inPort len ∧ ∃ e ∈ s.table, e.accepts (fromPacket p inPort) = true ∧ e' = touch len s.now e) ∨
-    (∃ fm, op = .flowMod fm ∧ e' = mkEntry s.now fm ∧ fm.flags.testBit FF_EMERG = false) := by
+    (∃ fm, op = .flowMod fm ∧ e' = mkEntry s.cfg s.now fm ∧ fm.flags.testBit FF_EMERG = false) := by
   cases op with
   | flowMod fm =>
-    have fin : Kept s e' ∨ (e' = mkEntry s.now fm ∧ fm.flags.testBit FF_EMERG = false) → (Kept s e' ∨
+    have fin : Kept s e' ∨ (e' = mkEntry s.cfg s.now fm ∧ fm.flags.testBit FF_EMERG = false) → (Kept s e' ∨
         (∃ p inPort len, Op.flowMod fm = .packet p inPort len ∧
           ∃ e ∈ s.table, e.accepts (fromPacket p inPort) = true ∧ e' = touch len s.now e) ∨
-        (∃ fm', Op.flowMod fm = .flowMod fm' ∧ e' = mkEntry s.now fm' ∧ fm'.flags.testBit FF_EMERG = false)) :=
+        (∃ fm', Op.flowMod fm = .flowMod fm' ∧ e' = mkEntry s.cfg s.now fm' ∧ fm'.flags.testBit FF_EMERG = false)) :=
       fun h => h.elim Or.inl (fun h => Or.inr (Or.inr ⟨fm, rfl, h⟩))
-    simp only [step, flowModStep] at he'
-    split at he'
-    · exact fin (flowModAdd_clocks s fm e' he')
-    · exact fin (flowModModify_clocks s fm false e' he')
-    · exact fin (flowModModify_clocks s fm true e' he')
-    · exact .inl (kept_of_mem s _ (List.mem_filter.mp he').1)
-    · exact .inl (kept_of_mem s _ (List.mem_filter.mp he').1)
+    have he'' : e' ∈ (flowModHandler s fm).1.table := by rw [← flowModStep_table]; exact he'
+    unfold flowModHandler at he''
+    split at he''
+    · exact fin (flowModAdd_clocks s fm e' he'')
+    · exact fin (flowModModify_clocks s fm false e' he'')
+    · exact fin (flowModModify_clocks s fm true e' he'')
+    · exact .inl (kept_of_mem s _ (List.mem_filter.mp he'').1)
+    · exact .inl (kept_of_mem s _ (List.mem_filter.mp he'').1)
+    · exact .inl (kept_of_mem s _ he'')
   | packet p inPort len =>
     simp only [step, packetStep] at he'
     split at he'
@@ -270,30 +306,53 @@ theorem step_clocks (s : State) (op : Op) (e' : FEntry) (he' : e' ∈ (step s op
   | flowStats m o => exact .inl (kept_of_mem s _ he')
   | aggStats m o => exact .inl (kept_of_mem s _ he')
 
+theorem flowModHandler_frame (s : State) (fm : FlowModMsg) :
+    (flowModHandler s fm).1.now = s.now ∧ (flowModHandler s fm).1.maxEntries = s.maxEntries ∧ (flowModHandler s fm).1.cfg = s.cfg ∧
+    (flowModHandler s fm).1.pool = s.pool := by
+  have hadd : (flowModAdd s fm).1.now = s.now ∧ (flowModAdd s fm).1.maxEntries = s.maxEntries ∧ (flowModAdd s fm).1.cfg = s.cfg ∧
+      (flowModAdd s fm).1.pool = s.pool := by
+    unfold flowModAdd flowModFailed
+    split
+    · exact ⟨rfl, rfl, rfl, rfl⟩
+    · split
+      · exact ⟨rfl, rfl, rfl, rfl⟩
+      · split <;> exact ⟨rfl, rfl, rfl, rfl⟩
+  have hmod : ∀ strict, (flowModModify s fm strict).1.now = s.now ∧ (flowModModify s fm strict).1.maxEntries = s.maxEntries ∧
+      (flowModModify s fm strict).1.cfg = s.cfg ∧ (flowModModify s fm strict).1.pool = s.pool := by
+    intro strict
+    unfold flowModModify
+    simp only
+    split
+    · exact ⟨rfl, rfl, rfl, rfl⟩
+    · exact hadd
+  unfold flowModHandler
+  split
+  · exact hadd
+  · exact hmod false
+  · exact hmod true
+  · exact ⟨rfl, rfl, rfl, rfl⟩
+  · exact ⟨rfl, rfl, rfl, rfl⟩
+  · exact ⟨rfl, rfl, rfl, rfl⟩
+
+theorem step_cfg (s : State) (op : Op) : (step s op).1.cfg = s.cfg := by
+  cases op with
+  | flowMod fm =>
+    show (flowModStep s fm).1.cfg = s.cfg
+    rw [flowModStep_cfg]; exact (flowModHandler_frame s fm).2.2.1
+  | packet p inPort len =>
+    simp only [step, packetStep]
+    split <;> rfl
+  | advance dt => rfl
+  | sweep => rfl
+  | flowStats m o => rfl
+  | aggStats m o => rfl
+
 theorem step_now_le (s : State) (op : Op) : s.now ≤ (step s op).1.now := by
   cases op with
   | flowMod fm =>
-    simp only [step, flowModStep]
-    have hadd : s.now ≤ (flowModAdd s fm).1.now := by
-      unfold flowModAdd flowModFailed
-      split
-      · exact Nat.le_refl _
-      · split
-        · exact Nat.le_refl _
-        · split <;> exact Nat.le_refl _
-    have hmod : ∀ strict, s.now ≤ (flowModModify s fm strict).1.now := by
-      intro strict
-      unfold flowModModify
-      simp only
-      split
-      · exact Nat.le_refl _
-      · exact hadd
-    split
-    · exact hadd
-    · exact hmod false
-    · exact hmod true
-    · exact Nat.le_refl _
-    · exact Nat.le_refl _
+    show s.now ≤ (flowModStep s fm).1.now
+    rw [flowModStep_now, (flowModHandler_frame s fm).1]
+    exact Nat.le_refl _
   | packet p inPort len =>
     simp only [step, packetStep]
     split <;> exact Nat.le_refl _
@@ -350,6 +409,16 @@ theorem flowModModify_removals (s : State) (fm : FlowModMsg) (strict : Bool) : r
   · rfl
   · exact flowModAdd_removals s fm
 
+theorem bufferTail_removals (s : State) (fm : FlowModMsg) : removals (bufferTail s fm).2 = [] := by
+  unfold bufferTail
+  split
+  · rfl
+  · rfl
+  · unfold bufferUse
+    split
+    · rfl
+    · split <;> rfl
+
 /-- the entries a step removes *with a reason*: an expiry sweep removes the idle-expired entries (reason IDLE_TIMEOUT) and,
     among the others, the hard-expired ones (HARD_TIMEOUT); DELETE / DELETE_STRICT remove the selected entries (DELETE).
     No other step removes an entry for a reason (ADD may *replace* one). -/
@@ -359,9 +428,9 @@ def departures (s : State) : Op → List (FEntry × Nat)
     (s.table.filter (fun e => !idleOut s.now e && hardOut s.now e)).map (fun e => (e, OFPRR_HARD_TIMEOUT))
   | .flowMod fm =>
     (match fm.cmd with
-     | .delete => (s.table.filter (fun e => isMatchedBy e (ofWire fm.mtch) fm.priority false (portFilter fm.outPort))).map
+     | .delete => (s.table.filter (fun e => isMatchedBy s.cfg e (rxMatch s.cfg fm.mtch) fm.priority false (portFilter fm.outPort))).map
                     (fun e => (e, OFPRR_DELETE))
-     | .deleteStrict => (s.table.filter (fun e => isMatchedBy e (ofWire fm.mtch) fm.priority true (portFilter fm.outPort))).map
+     | .deleteStrict => (s.table.filter (fun e => isMatchedBy s.cfg e (rxMatch s.cfg fm.mtch) fm.priority true (portFilter fm.outPort))).map
                     (fun e => (e, OFPRR_DELETE))
      | _ => [])
   | _ => []
@@ -384,15 +453,19 @@ theorem step_removals (s : State) (op : Op) :
       ((departures s op).filter (fun d => wantsRemoved d.1)).map (fun d => removedMsg s.now d.2 d.1) := by
   cases op with
   | flowMod fm =>
+    show removals (flowModStep s fm).2 = _
+    simp only [flowModStep, removals_append, bufferTail_removals, List.append_nil]
     cases hc : fm.cmd
-    · simp only [step, flowModStep, departures, hc]
+    · simp only [flowModHandler, departures, hc]
       exact flowModAdd_removals s fm
-    · simp only [step, flowModStep, departures, hc]
+    · simp only [flowModHandler, departures, hc]
       exact flowModModify_removals s fm false
-    · simp only [step, flowModStep, departures, hc]
+    · simp only [flowModHandler, departures, hc]
       exact flowModModify_removals s fm true
-    · simp only [step, flowModStep, departures, hc, flowModDelete, removals_notify, filter_map_pair, portFilter]
-    · simp only [step, flowModStep, departures, hc, flowModDelete, removals_notify, filter_map_pair, portFilter]
+    · simp only [flowModHandler, departures, hc, flowModDelete, removals_notify, filter_map_pair, portFilter]
+    · simp only [flowModHandler, departures, hc, flowModDelete, removals_notify, filter_map_pair, portFilter]
+    · simp only [flowModHandler, departures, hc]
+      rfl
   | packet p port len =>
     simp only [step, packetStep, departures]
     split <;> rfl
@@ -428,9 +501,13 @@ theorem delete_perm (s : State) (fm : FlowModMsg) (h : fm.cmd = .delete ∨ fm.c
     s.table.Perm ((step s (.flowMod fm)).1.table ++ (departures s (.flowMod fm)).map (·.1)) := by
   have e1 : ((fun d : FEntry × Nat => d.1) ∘ fun e => (e, OFPRR_DELETE)) = id := rfl
   rcases h with h | h
-  · simp only [step, flowModStep, departures, h, flowModDelete, List.map_map, e1, List.map_id, portFilter]
+  · show s.table.Perm ((flowModStep s fm).1.table ++ _)
+    rw [flowModStep_table]
+    simp only [flowModHandler, departures, h, flowModDelete, List.map_map, e1, List.map_id, portFilter]
     exact filter_perm_split _ _
-  · simp only [step, flowModStep, departures, h, flowModDelete, List.map_map, e1, List.map_id, portFilter]
+  · show s.table.Perm ((flowModStep s fm).1.table ++ _)
+    rw [flowModStep_table]
+    simp only [flowModHandler, departures, h, flowModDelete, List.map_map, e1, List.map_id, portFilter]
     exact filter_perm_split _ _
 
 /-- after a sweep no entry past a deadline remains -/
